@@ -193,6 +193,7 @@ type lcResult struct {
 	Counts     []string `json:"counts"`
 	Nontrivial bool     `json:"nt"`
 	Fail       string   `json:"fail"` // harness failure
+	Notes      []string `json:"notes"` // for diagnosis only (error texts of the calls that failed)
 	Millis     int64    `json:"ms"`
 }
 
@@ -502,6 +503,11 @@ func (e *lcEnv) startOn(cl *kmipclient.Client, ctx context.Context, id string) *
 			e.res.violate("C11", "no-panic", "lts.cli:panic "+panicKey(p), p)
 		case r.err != nil:
 			c.outcome, c.err = "err", r.err
+			e.mu.Lock()
+			if len(e.res.Notes) < 20 {
+				e.res.Notes = append(e.res.Notes, fmt.Sprintf("%s: %v", id, r.err))
+			}
+			e.mu.Unlock()
 		case fmt.Sprint(r.got) == fmt.Sprint(r.want):
 			c.outcome = "ok"
 		default:
@@ -1348,10 +1354,17 @@ func lcRunFlt(e *lcEnv) {
 func lcFltConc(e *lcEnv, wonly bool) {
 	point := lcPoints["loaded"]
 	var k2 *lcCall
+	var k2mu sync.Mutex // K2 is issued once: by the director while K1 holds the client, or else after K1
 	started := make(chan struct{})
 	e.dir.on(point, e.dir.hitCount(point), func() {
 		// K1 holds the client: issue K2 and give it the time to queue up
+		k2mu.Lock()
+		if k2 != nil {
+			k2mu.Unlock()
+			return // K1 never came here (it failed before): this is K2 itself
+		}
 		k2 = e.start(context.Background(), e.id("p"))
+		k2mu.Unlock()
 		close(started)
 		time.Sleep(lcPause)
 	})
@@ -1365,10 +1378,12 @@ func lcFltConc(e *lcEnv, wonly bool) {
 	}
 	e.wait(k1)
 	ph.record('p', k1)
+	k2mu.Lock()
 	queued := k2 != nil
 	if k2 == nil {
 		k2 = e.start(context.Background(), e.id("p"))
 	}
+	k2mu.Unlock()
 	e.wait(k2)
 	ph.record('p', k2)
 	firedDuringK1 := k1.firedAt - f0
@@ -1380,6 +1395,15 @@ func lcFltConc(e *lcEnv, wonly bool) {
 	if k2.outcome == "err" && firedLater == 0 && firedDuringK1 > 0 && (wonly || k1.outcome == "err") {
 		e.res.violate("C11", "recovers", "lts.cli:next-call-fails-after-fault",
 			fmt.Sprintf("call %q (%s) was hit by the fault; call %q, which was waiting for the client and during which nothing failed, failed with: %v", k1.id, k1.outcome, k2.id, k2.err))
+	}
+	// the fault was over before K1 started (processed: lcRunFlt has settled) and nothing failed since: both succeed
+	if firedDuringK1+firedLater == 0 {
+		for _, c := range []*lcCall{k1, k2} {
+			if c.outcome == "err" {
+				e.res.violate("C11", "recovers", "lts.cli:call-fails-without-fault",
+					fmt.Sprintf("call %q failed (%v) although no fault occurred during it and the earlier faults had been processed", c.id, c.err))
+			}
+		}
 	}
 	e.settle()
 	e.disarm()
@@ -1582,10 +1606,17 @@ func lcRunWin(e *lcEnv) {
 	spec := e.spec
 	e.arm(spec.faults...)
 	var k2 *lcCall
+	var k2mu sync.Mutex // K2 is issued once: by the director while K1 holds the client, or else after K1
 	started := make(chan struct{})
 	pl := lcPoints["loaded"]
 	e.dir.on(pl, e.dir.hitCount(pl), func() {
+		k2mu.Lock()
+		if k2 != nil {
+			k2mu.Unlock()
+			return
+		}
 		k2 = e.start(context.Background(), e.id("p"))
+		k2mu.Unlock()
 		close(started)
 		time.Sleep(lcPause)
 	})
@@ -1648,10 +1679,12 @@ func lcRunWin(e *lcEnv) {
 	}
 	e.wait(k1)
 	ph.record('p', k1)
+	k2mu.Lock()
 	queued := k2 != nil
 	if k2 == nil {
 		k2 = e.start(context.Background(), e.id("p"))
 	}
+	k2mu.Unlock()
 	e.wait(k2)
 	close(k2ret)
 	close(stop)
